@@ -4,7 +4,7 @@ import (
 	"github.com/buzzfeed/sso/internal/pkg/sessions"
 )
 
-func (o *Oracle) finish() {}
+func (o *Oracle) finish() { o.finishGroups() }
 
 // noteMinted registers a value the harness sealed itself (storage fault `mint`).
 func (o *Oracle) noteMinted(v string, s *sessions.SessionState) {
